@@ -6,8 +6,9 @@ import QipVerif.Model.SchedCons
 
 Instruction syntax: `NAME:t,t:c,c:dur[:sc]`, several joined by `|` (targets / controls already
 sorted as `Instruction.__init__` leaves them; empty controls = `None`; `dur` an integer
-numerator).  The flag `sc` ("the name is in `_SELF_COMMUTING_GATES`") is computed from the set regenerated
-from the tree under test (`Gen.SchedRule.inSet`); an explicit fifth field `0|1` overrides it (manual use only).
+numerator).  The flag `sc` ("the tree's rule can declare the instruction commuting with a gate of its own name": the name is
+in `_SELF_COMMUTING_GATES` and, on a tree with the guard, it has at most `lenBound` targets) is computed from the regenerated
+`Gen.SchedRule.flagged`; an explicit fifth field `0|1` overrides it (manual use only).
 
 * `comm g=A|B`                                              →  `ok 0|1`    (`commRules`, the rule of the model)
 * `commgen g=A|B`                                           →  `ok 0|1`    (`Gen.SchedRule.commutationRules`, regenerated from the source)
@@ -31,7 +32,7 @@ def parseIns (s : String) : Option Ins :=
   match s.splitOn ":" with
   | [nm, ts, cs, d] =>
     match natList? ts, natList? cs, d.toInt? with
-    | some t, some c, some dd => some ⟨nm, t, c, dd, Gen.SchedRule.inSet nm⟩
+    | some t, some c, some dd => some ⟨nm, t, c, dd, Gen.SchedRule.flagged ⟨nm, t, c, dd, true⟩⟩
     | _, _, _ => none
   | [nm, ts, cs, d, f] =>
     match natList? ts, natList? cs, d.toInt? with
